@@ -114,7 +114,7 @@ def _run_one(args):
                                 for e in ents if e["name"] not in ("medium-electric-pole", "small-electric-pole", "big-electric-pole", "substation"))
         pv = judge(src, optimize=(opt != "no-optimize"), bp=bp)
         for o in pv.outputs:
-            if o.status not in ("ok", "skip", "type-deviation"):
+            if o.status not in ("ok", "skip", "type-deviation", "type-deviation-param"):
                 res["problems"].append(f"decoded blueprint: {o.name}: {o.status} {o.detail} {o.witness}")
         if pv.status != "judged":
             res["problems"].append(f"judge: {pv.status} {pv.detail}")
